@@ -726,7 +726,8 @@ int file::Handle::readln(char * buf, int n)
   int c = 0, r = 0;
   while (r < n &&  c != '\n')
   {
-    if ((c = ::fgetc(_file)) <= 0)
+    /* a zero byte is data, only EOF ends the read */
+    if ((c = ::fgetc(_file)) < 0)
       break;
     *buf = (char)c;
     ++buf;
